@@ -279,3 +279,52 @@ SPECS['C08'] = dict(queries=c08, assumptions=SPECS['C01']['assumptions'] + [
     "'never blocking beyond the given time' is not decided (time is abstract); that untimed try-forms never block is decided via the per-thread blocked-context counter",
     "the truth value of a moved-from handle is left unconstrained (the defaulted move keeps the data pointer)"],
     outside=["cow_guarded / lr_guarded try forms (C04, C03)", "deferred_guarded shared try-forms (C06 harness)", "recursive mutexes"])
+
+
+# ------------------------------------------------------------------------------------------------ C15
+WRAPS['atomic_guarded'] = 6
+
+
+LIN_UNWIND = ','.join(f'vp_lin_check.{k}:66' for k in range(5))
+
+
+def aq(name, wrap, ops, rounds, **kw):
+    threads = [(f'T{i + 1}', f'vp_t{i + 1}') for i in range(len(ops))]
+    defines = [f'WRAP={WRAPS[wrap]}'] + [f"T{i + 1}_OPS=" + ','.join('OP_' + o for o in ol) for i, ol in enumerate(ops)]
+    kw.setdefault('unwind', 2)
+    kw.setdefault('unwindset', LIN_UNWIND)
+    kw.setdefault('extra_flags', [f'-DVP_HN={sum(len(o) for o in ops)}'])
+    return mk(name, 'c15_atomic.cpp', threads, rounds, final='vp_final', cover=(1 << len(ops)) - 1, defines=defines,
+              opts={'yield_blocks': False}, **kw)
+
+
+def c15(tier):
+    qs = []
+    seqd = lambda w, ol: [f'WRAP={WRAPS[w]}', 'T1_OPS=' + ','.join('OP_' + o for o in ol)]
+    if tier == 'quick':
+        qs.append(aq('atomic_xchg_cas_load', 'atomic_guarded', [['XCHG', 'LOAD'], ['CAS', 'STORE']], 3))
+        qs.append(aq('atomic_cas_cas_load_3t', 'atomic_guarded', [['CAS'], ['CAS'], ['LOAD']], 3))
+        qs.append(aq('atomic_assign_xchg_3t', 'atomic_guarded', [['ASSIGN'], ['XCHG'], ['LOAD']], 3))
+        qs.append(aq('guarded_load_store', 'guarded', [['STORE', 'LOAD'], ['ASSIGN', 'LOAD']], 3))
+        qs.append(aq('guarded_opt_load_store', 'guarded_opt', [['LOAD', 'STORE'], ['STORE', 'LOAD']], 3))
+        qs.append(aq('ordered_load_store', 'ordered_guarded', [['STORE', 'LOAD'], ['LOAD', 'ASSIGN']], 3))
+        qs.append(mk('atomic_seq4', 'c15_atomic.cpp', [], 1, seq=['vp_seq'], cover=1, defines=seqd('atomic_guarded', ['STORE', 'CAS', 'XCHG', 'LOAD']), unwind=2, unwindset=LIN_UNWIND, extra_flags=['-DVP_HN=4']))
+        qs.append(mk('atomic_seq4b', 'c15_atomic.cpp', [], 1, seq=['vp_seq'], cover=1, defines=seqd('atomic_guarded', ['CAS', 'LOAD', 'CAS', 'XCHG']), unwind=2, unwindset=LIN_UNWIND, extra_flags=['-DVP_HN=4']))
+    else:
+        for t3 in (['LOAD', 'LOAD'], ['XCHG', 'CAS'], ['STORE', 'LOAD']):
+            qs.append(aq('atomic_3t_L2_' + '_'.join(t3).lower(), 'atomic_guarded', [['XCHG', 'LOAD'], ['CAS', 'ASSIGN'], t3], 3, timeout=2400))
+        qs.append(aq('atomic_2t_L2_R4', 'atomic_guarded', [['CAS', 'XCHG'], ['CAS', 'LOAD']], 4, timeout=2400))
+        for w in ('guarded', 'guarded_opt', 'ordered_guarded'):
+            qs.append(aq(f'{w}_3t_L2', w, [['STORE', 'LOAD'], ['ASSIGN', 'LOAD'], ['LOAD', 'STORE']], 3, timeout=2400))
+        import itertools as it
+        for k, seq in enumerate(it.product(['STORE', 'CAS', 'XCHG', 'LOAD'], repeat=3)):
+            qs.append(mk('atomic_seq_' + '_'.join(seq).lower(), 'c15_atomic.cpp', [], 1, seq=['vp_seq'], cover=1,
+                         defines=seqd('atomic_guarded', list(seq) + ['LOAD']), unwind=2, unwindset=LIN_UNWIND, solvers=('minisat',), extra_flags=['-DVP_HN=4']))
+    return qs
+
+
+SPECS['C15'] = dict(queries=c15, assumptions=SPECS['C01']['assumptions'] + [
+    "register values are symbolic in {0,1,2}, stored as {v,v}; copy, assignment and == of the payload are two-step (switch point between the fields)",
+    "every completed history (invoke/response stamps, arguments, results) is checked inside the formula against a sequential register by a subset "
+    "dynamic program over all real-time-compatible linearisations (vpmodels.h vp_lin_check)"],
+    outside=["deferred_guarded::load (C06 harness)", "more than 3 threads / 2 operations per thread / 6 operations per history", "value domains larger than 3"])
